@@ -77,7 +77,7 @@ theorem xferLoop_closed (k : Int → Option Int) (src dst : Buf) (shift : Nat) (
       | none => simp [hkx, hkr] at hk
       | some ys' =>
         simp [hkx, hkr] at hk; subst hk
-        rw [show List.range' i0 (xs.length + 1) = i0 :: List.range' (i0 + 1) xs.length from by simp [List.range'_succ]]
+        rw [List.range'_succ]
         unfold xferLoop
         have hr0 := hread 0 (by omega)
         simp only [Nat.add_zero, List.getElem?_cons_zero] at hr0
